@@ -7,12 +7,15 @@ pub trait TS {
     spec fn spec_ident() -> Seq<char>;
     spec fn spec_output_path() -> Option<std::path::PathBuf>;
     spec fn spec_decl() -> Seq<char>;
+    spec fn spec_name() -> Seq<char>;
     fn ident() -> (r: String)
         ensures r@ == Self::spec_ident();
     fn output_path() -> (r: Option<std::path::PathBuf>)
         ensures r == Self::spec_output_path();
     fn decl() -> (r: String)
         ensures r@ == Self::spec_decl();
+    fn name() -> (r: String)
+        ensures r@ == Self::spec_name();
     type WithoutGenerics: ?Sized;
     const DOCS: Option<&'static str>;
 }
